@@ -160,6 +160,40 @@ func (g *h2gen) step() {
 }
 
 func init() {
+	register("h2conc", "C07: handlers marshal the fingerprint while later frames of the same connection keep arriving (run with -race)", func(c *ctx) {
+		c.deferred = true
+		for i := 0; i < c.count; i++ {
+			r := c.rng.fork()
+			g := &h2gen{r: r, nextID: 1}
+			g.toks = append(g.toks, g.settings())
+			// dense in captured frames: requests interleaved with SETTINGS / WINDOW_UPDATE / PRIORITY / HEADERS+priority
+			for j, n := 0, []int{8, 20, 40, 80}[r.intn(4)]; j < n; j++ {
+				switch r.intn(10) {
+				case 0, 1, 2:
+					id := g.nextID
+					g.nextID += 2
+					pr := "-"
+					if r.chance(2, 3) {
+						pr = g.prio(id)
+						g.nP++
+					}
+					g.toks = append(g.toks, fmt.Sprintf("H:%d.1.%s.%s.%d", id, pr, g.letters(), r.intn(3)))
+				case 3:
+					g.toks = append(g.toks, g.settings())
+				case 4, 5:
+					g.toks = append(g.toks, fmt.Sprintf("W:0.%d", r.rangeI(1, 99999)))
+				default:
+					sid := uint32(1 + r.intn(60))
+					p := strings.Split(g.prio(sid), "_")
+					g.toks = append(g.toks, fmt.Sprintf("P:%d.%s.%s.%s", sid, p[0], p[1], p[2]))
+					g.nP++
+				}
+			}
+			c.tag("frames:" + bucket(len(g.toks)))
+			c.tag("requests:" + bucket(int(g.nextID/2)))
+			c.op(fmt.Sprintf("h2conc max=%d frames=%s", []uint64{0, 1, 3, 10000, math.MaxUint64}[r.intn(5)], strings.Join(g.toks, ",")))
+		}
+	})
 	register("h2fp", "server-level: accepted frame scripts against the real serverConn; handlers report Marshal(max)", func(c *ctx) {
 		c.deferred = true
 		for i := 0; i < c.count; i++ {
